@@ -523,12 +523,59 @@ def run(F, rep):
             continue
         rep.check(bool(counts) or 'addMathmlIssue' in calls, 'C01.A1', key + '|arity checked', vd.where(th), 'the branch for %s checks neither the number of children/siblings nor the content of the element: an application with missing operands passes validation and is dereferenced by the analyser/generator' % els,
                   'checked by %s' % sorted(counts or {'addMathmlIssue'}))
+        # a branch that admits element children of its element (a has...MathmlChild(ren)(node, ..) test on the node itself) hands them on to the same validation: otherwise what is
+        # nested below it (the <ci> and <degree> of a bvar) is never checked, and an empty <ci/> there reaches the analyser
+        child_tests = [c for c in walk(th) if c.get('k') == 'Call' and re.match(r'^has(One|Two|AtLeastOne|AtLeastTwo|OneOrTwo)Mathml(Child|Children)$', c.get('fn') or '') and render(nth_arg(c, 0)) == 'node']
+        if child_tests:
+            rep.check('validateMathMLElementsChildrenAndSiblings' in calls, 'C01.A1', key + '|children validated', vd.where(th), 'the branch for %s admits child elements (%s) but does not validate them: whatever is nested below is accepted unchecked' % (els, child_tests[0].get('fn')),
+                      'children handed on to the same validation')
         if set(els) & {'min', 'max', 'rem', 'divide', 'power'}:
             rep.check(bool(counts & {'hasTwoMathmlSiblings', 'hasAtLeastTwoMathmlSiblings'}), 'C01.A1', key + '|two operands', vd.where(th), '%s is emitted as a two-argument function/operator but the validator guarantees only %s' % (els, sorted(counts)), 'at least two operands')
     if n_a < 20 or not {'min', 'max', 'rem', 'plus', 'piece', 'bvar'} <= seen_els:
         raise AnalysisBroken('C01.A1: only %d element branches found (25 confirmed)' % n_a)
     _rec.rule_progress(F, rep, 'C01.R2', lambda g: '/src/' in g.file, 60, 'the library')
     _rec.rule_stack_discipline(F, rep, 'C01.S1', lambda g: '/src/' in g.file, 8, 'the library')
+    # A2: the "how many children" helper and the "child number i" helper of one family count the same kind of child
+    rep.rule('C01.A2', 'mathmlChildCount / mathmlChildNode (and nonCommentChildCount / nonCommentChildNode) classify a child node with the SAME predicate: every caller loops `i < count(node)` and dereferences `child(node, i)`, '
+                       'so a count that also counts, say, elements of a foreign namespace makes the index helper walk off the end and hand back a null node')
+    n_a2 = 0
+    for cnt_n, idx_n in (('mathmlChildCount', 'mathmlChildNode'), ('nonCommentChildCount', 'nonCommentChildNode')):
+        fc, fi = F.fn1('libcellml::' + cnt_n), F.fn1('libcellml::' + idx_n)
+
+        def preds(g_):
+            return sorted({c_.get('fn') + '(' + ','.join(render(x) for x in c_['c'][1:]) + ')'
+                           for c_ in g_.walk() if c_.get('k') == 'Call' and c_.get('mc') and (c_.get('cls') or '').endswith('XmlNode') and (c_.get('fn') or '').startswith('is')})
+        pc, pi = preds(fc), preds(fi)
+        n_a2 += 1
+        rep.check(bool(pc) and pc == pi, 'C01.A2', '%s/%s' % (cnt_n, idx_n), fc.where(), '%s counts the children for which %s holds, %s indexes those for which %s holds: with a child that satisfies only one of the two the loops `i < count` dereference a null node' % (cnt_n, pc, idx_n, pi), 'both use %s' % pc)
+    # U1: a reference that is the name of a standard unit is never looked up in a model
+    rep.rule('C01.U1', 'wherever a function distinguishes standard unit names (isStandardUnitName(ref)) and also resolves the same reference in a model (model->units(ref)), the look-up happens only where the name is NOT a standard one: '
+                       'all walks over unit references (definedness, multiplier, unit map, base-unit count, flattening) must take the same turn, otherwise a model that defines units under a standard name sends one walk round a cycle '
+                       'that the cycle-detecting walk (isDefined, the validator) never enters')
+    from engines import facts_x as _fxu
+    n_u1 = 0
+    for g in F.funcs.values():
+        if '/src/' not in g.file:
+            continue
+        stds = {render(nth_arg(c, 0)) for c in g.walk() if c.get('k') == 'Call' and c.get('fn') == 'isStandardUnitName' and nth_arg(c, 0) is not None}
+        if not stds:
+            continue
+        for c in g.walk():
+            if c.get('k') == 'Call' and c.get('mc') and c.get('fn') == 'units' and (c.get('cls') or '').endswith('Model') and len(c.get('c', [])) == 2 and render(c['c'][1]) in stds:
+                n_u1 += 1
+                a_ = render(c['c'][1])
+                fx = _fxu(F, g, c) or set()
+                # a walk that keeps its own path / visited list and tests it before following a reference is safe whichever turn it takes; so is a function that does not recurse
+                recursive_ = g.key in F.reach(list(F.callees.get(g.key, ())))
+                guarded_ = any(x.get('k') == 'Call' and x.get('fn') in ('find', 'find_if', 'count') and any(y.get('k') == 'Ref' and y.get('dk') == 'parm' and 'std::vector<' in (y.get('t') or '') for y in walk(x)) for x in g.walk())
+                if ('isStandardUnitName(%s)' % a_, False) not in fx and (not recursive_ or guarded_):
+                    rep.ok('C01.U1', '%s|%s' % (g.short.split('::')[-1], render(c)[:50]), g.where(c), 'own cycle guard' if guarded_ else 'does not recurse')
+                    continue
+                rep.check(('isStandardUnitName(%s)' % a_, False) in fx, 'C01.U1', '%s|%s' % (g.short.split('::')[-1], render(c)[:50]), g.where(c),
+                          '%s resolves `%s` in the model although it may be the name of a standard unit (no `!isStandardUnitName(%s)` holds there): this walk follows a user-defined "%s" that the other walks treat as a base unit' % (g.short, a_, a_, 'volt'),
+                          'only for names that are not standard units')
+    if n_u1 < 6:
+        raise AnalysisBroken('C01.U1: only %d model look-ups of references that are also tested with isStandardUnitName (9 confirmed)' % n_u1)
     from engines import rule_regex_depth
     rule_regex_depth(F, rep, 'C01.X6', lambda g: '/src/' in g.file,
                      {('addVersionAndLibcellmlVersionCode', '([0-9]+\\.[0-9]+\\.[0-9]+)'): 'applied to GeneratorProfile::implementationVersionString(), a string the caller configures on the profile: it does not derive from the bytes handed to parseModel, which is what C01 quantifies over'},
